@@ -24,7 +24,8 @@ CHECKS = {
          "finite by construction, caller-supplied or repo-defined (delegated), or moves a counter by a constant towards a bound the "
          "loop cannot change, with the exit test on every trip -- or is on the baseline of loops that existed on the pinned tree "
          "(every unpaced loop on today's baseline was read and carries a termination argument); no loop has a trip that skips every "
-         "exit test; a new unpaced loop, a loop that lost its pacing or a `continue` that bypasses the exit test is a violation. "
+         "exit test or a trip that writes nothing the loop's branches depend on (a step left out of one arm); a new unpaced loop, a "
+         "loop that lost its pacing or a `continue` that bypasses the exit test is a violation. "
          "Closed functions (restricted visibility, never used as a value) are analysed under the facts every call site establishes "
          "for their parameters; calls through a trait the crate does not export use the hull of the impls' return summaries. A "
          "baseline entry confirmed by reading carries, where its reason is structural, a witness that is re-evaluated on every run "
@@ -50,7 +51,8 @@ CHECKS = {
          "listed as existing on the pinned tree and not claimed; anything new is a violation); every hand-written Iterator::next "
          "makes progress on every yielding path; loop census over skrifa / IFT / the brotli wrapper (as C01-j: 281 of 308 loops paced "
          "automatically, the others read and confirmed with a termination argument except the Newton iteration of normalize14 and "
-         "the FFI loop around the C brotli decoder; no trip skips every exit test -- the rule that came out of F30, an endless walk "
+         "the FFI loop around the C brotli decoder; no trip skips every exit test or leaves untouched everything the loop's branches "
+         "depend on -- the first is the rule that came out of F30, an endless walk "
          "in the auto-hinter's blue-zone search, repaired); confirmed baseline entries carry re-evaluated witnesses as in C01 "
          "(including: every stack_mem::<N> call passes a size within N). One genuine defect is a known finding (F5); F19, F20, "
          "F30, F31 (2^n re-traversal of nested PaintGlyphs) and the checked-build panics F26-F29, F32 were repaired. Not decided: "
@@ -193,7 +195,9 @@ CHECKS = {
          "invalidation, or a URI twice in a scope (payload shapes + map keyed by the URI string at the only insertion sites); "
          "every non-Err exit of apply_next_patches_with_decoder has flipped a Pending entry or passed the non-empty test of a "
          "list filled only from Pending entries (progress => extension terminates); every call-graph cycle in the IFT crates "
-         "is bounded (the entry-intersection recursion by memoised in-order evaluation over strictly prior child indices). "
+         "is bounded (the entry-intersection recursion by memoised in-order evaluation over strictly prior child indices); the "
+         "preference key IntersectionInfo is computed without wrapping fixed-point operators (F34, repaired: a wide design-space "
+         "segment made the smaller intersection win). "
          "Does not decide intersection semantics, tie-breaking or monotonicity (value level).",
     note="Trusted: rustc MIR/type facts, call-graph construction (A-CB: no edges for embedder type parameters / std callbacks).",
  ),
